@@ -25,7 +25,7 @@ OUTSIDE = ['"compiled kernel returns the same values as its interpreted source f
 ASSUMPTIONS = ['numpy index semantics: an integer index outside [-n, n) raises IndexError; slices clip (identical in numba nopython mode)',
                'negative indices wrap (legal in both)']
 EXPLORER_DEFAULTS = {'quick': dict(prove_timeout_ms=10000, branch_timeout_ms=3000, time_budget_s=600, max_paths=80, max_decisions=200),
-                     'thorough': dict(prove_timeout_ms=10000, branch_timeout_ms=5000, time_budget_s=2400, max_paths=300, max_decisions=300)}
+                     'thorough': dict(prove_timeout_ms=10000, branch_timeout_ms=5000, time_budget_s=1200, max_paths=300, max_decisions=300)}
 # replays run the interpreted source: without bounds checking a compiled kernel reads past the end silently
 REPLAY_ENV = {'NUMBA_DISABLE_JIT': '1'}
 LABEL = 'every index used by the kernels and their callers lies inside the array it is applied to'
